@@ -5,6 +5,9 @@ pub mod c05;
 pub mod c06;
 pub mod c07;
 pub mod c08;
+pub mod c09;
+pub mod c15;
+pub mod c20;
 pub mod common;
 pub mod c04;
 
@@ -19,6 +22,9 @@ pub fn run(cfg: &Cfg, rep: &mut Report) -> bool {
     "C06" => c06::run(cfg, rep),
     "C07" => c07::run(cfg, rep),
     "C08" => c08::run(cfg, rep),
+    "C09" => c09::run(cfg, rep),
+    "C15" => c15::run(cfg, rep),
+    "C20" => c20::run(cfg, rep),
     "C04" => c04::run(cfg, rep),
     _ => return false,
   }
